@@ -39,6 +39,7 @@ type thread struct {
 	vc       []int // vector clock
 	held     []interface{}
 	steps    int
+	spawned  bool // started by the code under test
 }
 
 // PointRec is one scheduling decision of an execution.
@@ -283,8 +284,23 @@ func (s *Sched) newThread(name string, timer bool, parent *thread) *thread {
 	return t
 }
 
+// LiveSpawned: goroutines started by the code under test (not the scenario's own threads, not timers) that have not
+// finished yet - running, waiting or not even started.
+func (s *Sched) LiveSpawned() int {
+	s.mu.Lock()
+	defer s.mu.Unlock()
+	n := 0
+	for _, t := range s.threads {
+		if t.spawned && !t.timer && !t.finished {
+			n++
+		}
+	}
+	return n
+}
+
 func (s *Sched) spawn(parent *thread, fn func(), name string, timer bool) *thread {
 	t := s.newThread(name, timer, parent)
+	t.spawned = true
 	t.pending = &op{kind: "start:" + name}
 	s.launch(t, fn)
 	return t
